@@ -1,8 +1,8 @@
 """C11 Timestamp and duration arithmetic and calendar accessors are exact (DESIGN.md section 3, C11).
 
 Bounded-exhaustive: an alphabet T11 of instants (calendar boundaries of 13 years, one full week,
-the DST edges of 7 IANA zones), an alphabet D11 of durations, every fixed offset that is a
-multiple of 15 minutes in [-14:00, +14:00] in its written form, 7 IANA zones, and every duration
+the DST edges of 8 IANA zones (one with a seconds-valued offset inside the window)), an alphabet D11 of durations, every fixed offset that is a
+multiple of 15 minutes in [-14:00, +14:00] in its written form, 8 IANA zones (one with a seconds-valued offset inside the window), and every duration
 text of a bounded grammar.  Every case is evaluated through the public API under one runner and
 compared with mc.ref.calendar (pure integer proleptic-Gregorian arithmetic) / mc.ref.durtext
 (exact rationals).  IANA offsets are *trusted data* read through stdlib ``zoneinfo`` from two
@@ -23,7 +23,7 @@ from ..ref import durtext
 
 LEVEL = "exploration"
 
-ZONES = ("UTC", "America/New_York", "Europe/Paris", "Asia/Kolkata", "Asia/Kathmandu", "Australia/Lord_Howe", "Pacific/Apia")
+ZONES = ("UTC", "America/New_York", "Europe/Paris", "Asia/Kolkata", "Asia/Kathmandu", "Australia/Lord_Howe", "Pacific/Apia", "Africa/Monrovia")
 YEARS = (1, 4, 100, 400, 1900, 1969, 1970, 1999, 2000, 2020, 2021, 2038, 9999)
 SWEEP_YEARS = (1, 4, 100, 400, 1900, 1970, 1999, 2000, 2011, 2021, 2024, 9999)     # thorough: every day
 EDGE_YEARS_QUICK = (2011, 2021)
@@ -275,6 +275,8 @@ def expected(w):
     if sp == "durtext":
         r = durtext.oracle(w["text"])
         return UNSPEC if r is UNSPEC else "E" if r == durtext.ERR else ("duration", r)
+    if sp == "history":
+        return hist_model(w["term"])
     raise runner.HarnessError(f"unknown space {sp}")
 
 
@@ -311,6 +313,8 @@ def program_of(w):
         if lit:
             return 'duration("%s")' % w["text"], {}
         return "duration(s)", {"s": ct.StringType(w["text"])}
+    if sp == "history":
+        return hist_text(w["term"]), {}
     raise runner.HarnessError(f"unknown space {sp}")
 
 
@@ -337,6 +341,8 @@ def observe(w, progs):
     text, bindings = program_of(w)
     if text is None:
         return None, None
+    for earlier in w.get("history", ()):                 # history space: the steps before the judged one, same process
+        progs.get(hist_text(earlier), keep=False).eval_raw({})
     o, raw = progs.get(text, keep=bool(bindings)).eval_raw(bindings)
     proper = True
     if o[0] == "V" and o[1] == "timestamp":
@@ -409,6 +415,8 @@ def signature(w, kind, exp, progs=None):
     elif sp == "diff":
         d = w["t1_us"] - w["t2_us"]
         core = f"diff:t1 - t2:{kind}:{'0' if d == 0 else '-' if d < 0 else '+'}:{ctor_cause(w, progs)}"
+    elif sp == "history":
+        core = f"history:{kind}:{w['term'][0]}-after-{'+'.join(t[0] for t in w['history']) or 'nothing'}"
     else:
         core = f"durtext:{kind}:{durtext_cause(w, progs)}"
     return core + "@" + variant
@@ -514,6 +522,8 @@ def ctor_text(t_us, ctor):
 def describe(w):
     text, _ = program_of(w)
     sp, lit = w["space"], w.get("form") == "literal"
+    if sp == "history":
+        return f"[{w['runner']}] {text}  evaluated in one process after {[hist_text(t) for t in w['history']]}"
     if lit:
         return f"[{w['runner']}] {text}"
     if sp == "acc":
@@ -607,6 +617,76 @@ def durtext_shard(task):
                 run_case(part, {"space": "durtext", "runner": rk, "text": sign + body, "form": "bound"}, progs)
                 part.space(f"durtext-boundary:{rk}", 0, 1)
         part.sample({"space": "durtext", "runner": rk, "first": "0h", "last_boundary": DUR_BOUNDARY[-1], "signs": list(durtext.SIGNS)})
+    part.space(f"{name}:{rk}", 0, n)
+    return part
+
+
+# ---- histories: the judged term is evaluated after another term in the same process ----------------------
+# (a value memoised, a zone cached or a parser left in a state by the first step must not change the second)
+
+H_DUR_BODIES = ("1h30m", "45m", "1.5s", "0s", "90m")
+H_TS_TEXTS = ("2009-02-13T23:31:30Z", "2009-02-13T23:31:30+00:00", "2009-02-14T05:16:30+05:45", "2009-02-13T23:31:30.000000Z",
+              "2009-02-13T23:31:30.5Z", "2009-02-13T14:01:30-09:30")
+H_ACC_ZONES = ("+05:45", "-05:45", "Asia/Kathmandu", "UTC")
+
+
+def hist_terms():
+    out = [["dur", sign + b] for b in H_DUR_BODIES for sign in ("", "-", "+")]
+    out += [["ts", t] for t in H_TS_TEXTS]
+    out += [["acc", t, a, z] for t in H_TS_TEXTS[:2] for a in ("getHours", "getMinutes") for z in H_ACC_ZONES]
+    return out
+
+
+def hist_text(term):
+    if term[0] == "dur":
+        return 'duration("%s")' % term[1]
+    if term[0] == "ts":
+        return 'timestamp("%s")' % term[1]
+    return 'timestamp("%s").%s("%s")' % (term[1], term[2], term[3])
+
+
+def hist_model(term):
+    if term[0] == "dur":
+        return _model_term("duration", term[1])
+    if term[0] == "ts":
+        return _model_term("timestamp", term[1])
+    r = cal.parse_rfc3339(term[1])
+    if r is None or not r[1]:
+        return UNSPEC
+    off = cal.parse_offset(term[3])
+    if off is None:
+        off = iana_offset(term[3], r[0]) if term[3] in ZONES else None
+        if off is None:
+            return UNSPEC
+    f = cal.fields(r[0], off)
+    return UNSPEC if f is UNSPEC else ("int", f[term[2]])
+
+
+def history_count():
+    n = len(hist_terms())
+    return n + n * n
+
+
+def history_cases(rk):
+    terms = hist_terms()
+    for b in terms:
+        yield {"space": "history", "runner": rk, "history": [], "term": b, "form": "literal"}
+    for a in terms:
+        for b in terms:
+            yield {"space": "history", "runner": rk, "history": [a], "term": b, "form": "literal"}
+
+
+def history_shard(task):
+    rk, name, lo, hi, tier = task
+    part = runner.Part()
+    progs = Progs(rk)
+    n = 0
+    for idx, w in enumerate(history_cases(rk)):
+        if lo <= idx < hi:
+            run_case(part, w, progs)
+            n += 1
+    if lo == 0:
+        part.sample({"space": "history", "runner": rk, "terms": [hist_text(t) for t in hist_terms()][:8], "n_terms": len(hist_terms())})
     part.space(f"{name}:{rk}", 0, n)
     return part
 
@@ -808,13 +888,14 @@ def run(ctx):
         f"change and the microsecond before it ({'every change 1971-2025' if ctx.thorough else 'first change and those of 2011 and 2021'}). "
         f"D11 = {len(D11)} durations (0, +-1us, +-1ms, +-1s, +-59.999999s, +-1h, +-1d, +-365d, +-146097d, +-315576000000s). "
         "Cases: (accessor x instant x zone argument {none, each of 114 written +HH:MM/-HH:MM offsets (multiples of 15 min in +-14:00, both spellings "
-        "of zero), 7 IANA zones for instants in 1971..2025}), the binding built by a constructor in {integer fields, RFC3339 Z text, RFC3339 "
+        "of zero), 8 IANA zones (one with a seconds-valued offset inside the window) for instants in 1971..2025}), the binding built by a constructor in {integer fields, RFC3339 Z text, RFC3339 "
         "+05:30 text} rotating over (instant, zone argument) and all three when there is no zone argument; "
         "(program in {t + d, d + t, t - d, (t + d) - d == t, (t + d) - t == d} x T11 x constructor x D11); t1 - t2 for every ordered pair of T11 (thorough: every ordered pair with at least one operand in the quick T11); "
         "duration(s) for every text sign x sequence of <= 3 components (any unit order, repetition allowed"
         + ("" if ctx.thorough else "; 3-component sequences restricted to strictly descending units") +
         ") over units h,m,s,ms,us,ns and values 0,1,59,90,1.5,.5 (us: whole values; ns: whole microseconds) plus a list of range-boundary texts; "
-        "the same programs with timestamp(\"...\")/duration(\"...\") literals for a sub-space"
+        "histories: every term of a %d-term alphabet (signed/unsigned duration texts, spellings of one instant, zoned accessors) alone and after every other term in the same process; "
+        "the same programs with timestamp(\"...\")/duration(\"...\") literals for a sub-space" % len(hist_terms())
         + ("; every day of years " + str(list(SWEEP_YEARS)) + " x zone argument x accessor" if ctx.thorough else "") +
         ". Each case runs under one runner (I and C in separate worker pools). A case is non-trivial iff the reference model gives a definite "
         "answer (value or 'must be an evaluation error'); UNSPEC = local civil date outside years 1..9999, dropped IANA pairs, sub-microsecond "
@@ -842,6 +923,7 @@ def run(ctx):
         tasks += [(diff_shard, (rk, "diff", lo, hi, tier)) for lo, hi in runner.shards(len(ts), 8)]
         tasks += [(durtext_shard, (rk, "durtext", lo, hi, tier)) for lo, hi in runner.shards(n_dt, 16)]
         tasks += [(literal_shard, (rk, "literal", lo, hi, tier)) for lo, hi in runner.shards(n_lit, 16)]
+        tasks += [(history_shard, (rk, "history", lo, hi, tier)) for lo, hi in runner.shards(history_count(), 8)]
         if ctx.thorough:
             tasks += [(acc_shard, (rk, "acc-sweep", lo, hi, tier)) for lo, hi in runner.shards(len(sweep), 128)]
         # one pool per runner kind: environments of the two kinds never share a process
@@ -856,6 +938,7 @@ def run(ctx):
         "durtext": dur_text_count(tier),
         "durtext-boundary": len(DUR_BOUNDARY) * len(durtext.SIGNS),
         "literal": n_lit,
+        "history": history_count(),
     }
     if ctx.thorough:
         card["acc-sweep"] = len(ACCESSORS) * ((1 + len(OFFSET_FORMS)) * len(sweep) + len(ZONES) * sum(1 for t in sweep if IANA_LO <= t <= IANA_HI))
